@@ -45,7 +45,7 @@ MANIFEST = {
 RULE = ("a case = a machine configuration (topology std|two_src|chain [trough->launcher->{playfield|lock}, every 5th case], trough slots 3-5, balls 1-4, max_eject_attempts per device, "
         "eject/ball-missing/idle timeouts), physical timings on the 1/16 s grid (leave, transit, fall-back, lateness, playfield "
         "switch or not), one outcome list per device (ok/stuck/fallback/late/astray) and 3-14 actions (add_ball, drain, lock "
-        "shot claimed or not, release_lock, request_lock [two-hop request to a non-playfield target], escape, playfield switch hit, wait, rest). non-trivial = at least one ball physically "
+        "shot claimed or not, release_lock, stale_release [eject event at the empty lock], request_lock [two-hop request to a non-playfield target], escape, playfield switch hit, wait, rest). non-trivial = at least one ball physically "
         "left a device; distinct = canonical JSON of the case")
 TRUSTED = ["modelled, not verified: the coroutines of mpf/devices/ball_device/*.py are tied to the ledger only by the runtime "
            "monitor (sampled schedules), not by proof; asyncio scheduling, switch debounce (switch_counter._run), timers",
@@ -204,6 +204,19 @@ def gen_chain_case(r):
 
 
 def gen_case(r, i, heavy=False):
+    case = _gen_case(r, i, heavy)
+    if case["p"]["topo"] == "std":
+        # flavours decided by the case index (no extra random draw, the streams stay what they were): the lock listed before
+        # the plunger in the config (order of the balldevice_balls_available handlers), and a stale eject request left at
+        # the empty lock (second requester)
+        if i % 2 == 1:
+            case["p"]["lock_first"] = True
+        if i % 7 in (3, 4):
+            case["ops"].insert(min(len(case["ops"]), i % 3), ["stale_release"])
+    return case
+
+
+def _gen_case(r, i, heavy=False):
     if i % 5 == 4:
         return gen_chain_case(r)
     if heavy and r.random() < 0.5:
@@ -325,7 +338,13 @@ def run(ctx, focus="C04", ident=ID):
         res = eval_case(ctx, chain_restore_case(), model, focus)
         ctx.notes["chain_restore_case"] = {"failures": [f[0] for f in res.failures], "lostEjected": res.hist.get("op_lostEjected", 0),
                                            "queued_replacement": res.hist.get("op_queueReq", 0)}
+        res = eval_case(ctx, two_requesters_case(), model, focus)
+        ctx.notes["two_requesters_case"] = [f[0] for f in res.failures]
         if focus == "C04":
+            bad = 0
+            for icase in chain_interleavings():
+                bad += len(eval_case(ctx, icase, model, focus).failures)
+            ctx.notes["chain_interleavings"] = {"cases": len(chain_interleavings()), "with_failures": bad}
             eval_case(ctx, d16_case(ctx.rng("d16")), model, focus)
             for sig, wcase in WITNESSES:
                 res = eval_case(ctx, wcase, model, focus)
